@@ -1,6 +1,6 @@
 #!/bin/sh
 # lib/all_quick.sh [ids...] : run the quick tier of every registered check (or the given ones), one line each.
-cd /verif
+cd "$(dirname "$0")/.." || exit 2
 IDS="$*"
 [ -n "$IDS" ] || IDS=$(python3 -c "import json;print(' '.join(c['property_id'] for c in json.load(open('MANIFEST.json'))['checks']))")
 for p in $IDS; do
